@@ -135,8 +135,9 @@ class _BadiYearMonthDayCalculator(_YearMonthDayCalculator):
         next_month_num = this_month + months
 
         if next_month_num > self.__MONTHS_IN_YEAR:
-            next_year = this_year + _towards_zero_division(next_month_num, self.__MONTHS_IN_YEAR)
-            next_month_num = next_month_num % self.__MONTHS_IN_YEAR
+            # Months are 1-based: month 19 of the following year is 2 * 19, which is one year ahead, not two.
+            next_year = this_year + _towards_zero_division(next_month_num - 1, self.__MONTHS_IN_YEAR)
+            next_month_num = (next_month_num - 1) % self.__MONTHS_IN_YEAR + 1
         elif next_month_num < 1:
             next_month_num = self.__MONTHS_IN_YEAR - next_month_num
             next_year = this_year - _towards_zero_division(next_month_num, self.__MONTHS_IN_YEAR)
